@@ -33,10 +33,32 @@ def tr_of(v):
 # ------------------------------------------------------------------------------------------------
 
 def o_common(story, recs, report):
+    saved = None
     for k, r in enumerate(recs[1:], 1):
         v = r["view"]
         if v is None:
             continue
+        op0 = r["op"][0]
+        if op0 in ("reload", "save", "load") and r["obs"][0] != "ok":
+            report(f"{op0}-raised", f"{op0} of a reachable situation raised {r['obs']}", k)
+        elif op0 == "save":
+            saved = r["before"]
+            if v != r["before"]:
+                report("save-changed-the-game", f"save_state() changed {[kk for kk in v if v[kk] != r['before'][kk]]}", k)
+        elif op0 == "reload":
+            want, got = strip_flags(r["before"]), strip_flags(v)
+            if want != got:
+                report("reload-not-faithful", "save -> JSON -> load into a fresh engine differs in "
+                       f"{[kk for kk in want if want[kk] != got[kk]]}", k)
+            if v["can_undo"] or v["can_redo"]:
+                report("load-kept-history", "undo/redo available right after a load", k)
+        elif op0 == "load" and saved is not None:
+            want, got = strip_flags(saved), strip_flags(v)
+            if want != got:
+                report("load-not-faithful", "loading the saved document into the running engine differs from the saved "
+                       f"situation in {[kk for kk in want if want[kk] != got[kk]]}", k)
+            if v["can_undo"] or v["can_redo"]:
+                report("load-kept-history", "undo/redo available right after a load", k)
         if v["depth"] != 0:
             report("scope-stack-not-empty-after-call", f"{v['depth']} parameter scope(s) left on the stack after {r['op']}", k)
         if r["obs"][0] == "exc":
@@ -208,7 +230,9 @@ def o_c07(story, recs, report):
         v = r["view"]
         if v is None:
             continue
-        leaked = params & set(v["vars"].keys())
+        # (parameters named like a global - 'a', 'b' - shadow it; whether the global then keeps its value is judged by
+        #  the correspondence with the model, not here)
+        leaked = (params - {"a", "b", "c"}) & set(v["vars"].keys())
         if leaked:
             report("parameter-in-globals", f"parameter name(s) {sorted(leaked)} appeared in the global variables", k)
         # binding like a Python call: the PARAMS line shows what the passage saw
@@ -312,7 +336,7 @@ def o_c09(story, recs, report):
             continue
         tb, tv = tr_of(b), tr_of(v)
         op = r["op"][0]
-        if op in ("read", "reset") and tv != tb:
+        if op in ("read", "reset", "save", "reload") and tv != tb:
             report(f"passage-ran-on-{op}", f"{tv[len(tb):]} ran during {op}", k)
         if op == "goto" and r["obs"][0] == "ok" and tv[:len(tb)] == tb:
             target = r["op"][1].split("(")[0]
@@ -468,7 +492,7 @@ def gen_ops_for(pid, rng, n):
         if pid == "C02" and k < 0.2:
             ops.append(("choose", rng.choice([-1, -3, 50, 7, 10 ** 9, 4])))
             continue
-        ops.extend(G.gen_ops(rng, 1))
+        ops.extend(G.gen_ops(rng, 1, saveload=True))
     return ops
 
 
